@@ -67,8 +67,17 @@ CLAIMED = {
          "Decides that the eight DSSP states, the character switch, the simplified translation and the documented code list agree (exhaustive, injective), that the output has one "
          "code per residue per frame with 'NA' overlaid from the protein mask, that incomplete residues take part in no pattern, and that every i+-k access of the bridge / helix tests "
          "is behind its bounds and same-chain tests. The DSSP rule logic itself is combinatorial and not decided.", _NOTE, "DESIGN.md §4 C15"),
+ "C05": ("dispatch-predicate and box-orientation agreement across dispatchers (py) and wrappers (pyx), literal evaluation of the image loops and statement-sequence comparison of sibling kernels on the clang AST, positional FFI conformance against the real C prototypes",
+         "Decides that every distance/displacement dispatcher selects the periodic path by the same predicate, derives orthogonality from the cell angles and hands the box to the optimised and reference "
+         "paths in the same orientation; that the wrap acts on pos2-pos1 in every kernel, the box is reduced before use, the image search enumerates exactly {-1,0,1}^3 and its minimum is what is stored; "
+         "that the time-pair kernels equal their siblings; and that every extern call in _geometry.pyx passes the variable its C parameter names. That the result is the true minimum for every cell is numerical and not decided.",
+         _NOTE, "DESIGN.md §4 C05"),
+ "C07": ("dispatch / FFI conformance (shared with C05), evaluation of index initializer lists and column selections to atom-slot tables, clamp-before-acos ordering and formula shape on the clang AST, constant-table comparison with the IUPAC-IUB torsion definitions plus internal invariants",
+         "Decides that angles and dihedrals take the periodic path like distances do, that C kernels and numpy references build (mid->first, mid->third) and consecutive bond vectors from the same atom slots and read them "
+         "back in the order requested, that the cosine is clamped to [-1,1] before acos on every path and the dihedral is atan2(|b2| b1.(b2xb3), (b1xb2).(b2xb3)) in both implementations, and that PHI/PSI/OMEGA/CHI1-5 tables, "
+         "offset parsing and per-chain lookup match the IUPAC definitions. Numerical values and sign at degeneracies are not decided.", _NOTE, "DESIGN.md §4 C07"),
 }
 _PENDING = "check not built yet in this round (design in DESIGN.md §4); will be claimed when its rules run clean"
-NA = {k: _PENDING for k in ["C05","C06","C07","C09","C10"]}
+NA = {k: _PENDING for k in ["C06","C09","C10"]}
 NA["C16"] = ("every clause is numerical equality of computed arrays with closed-form expressions; no structural "
              "necessary condition covers more than one of the fifteen functions (DESIGN.md §5)")
